@@ -118,6 +118,19 @@ func (d *dut) viol(fp, msg string) {
 	d.r.Violation(fp, msg, map[string]any{"case": d.idx, "config": d.cfg, "ops_tail": ops})
 }
 
+// commitError: a flush that fails for the known indexing-stall reason gets that class.
+func (d *dut) commitError(err error) {
+	if d.cfg.TrieHist >= 0 && strings.Contains(err.Error(), "history indexing is out of order") && !strings.Contains(err.Error(), "last: null") {
+		d.viol("index-stalled-after-history-without-index-entries", "Commit fails: "+err.Error())
+		return
+	}
+	if d.toGenesis && strings.Contains(err.Error(), "history indexing is out of order, last: null") {
+		d.viol("reextend-after-rollback-to-genesis:index-metadata-deleted", "after Recover to state id 0, Commit fails: "+err.Error())
+		return
+	}
+	d.viol("commit-failed", err.Error())
+}
+
 func (d *dut) head() *statehist.State { return d.chain[len(d.chain)-1] }
 
 // extend appends n fresh transitions (block number = state id).
@@ -482,7 +495,7 @@ func (d *dut) rollback() {
 	if hi < lo {
 		// everything still lives in diff layers: flush first
 		if err := d.db.Commit(d.head().Root, false); err != nil {
-			d.viol("commit-failed", err.Error())
+			d.commitError(err)
 			return
 		}
 		first, last, ok = d.historyWindow()
@@ -595,7 +608,7 @@ func historyCase(r *vrt.Run, idx, maxLayers int) {
 			return
 		}
 		if err := d.db.Commit(d.head().Root, false); err != nil {
-			d.viol("commit-failed", err.Error())
+			d.commitError(err)
 			return
 		}
 		if !d.reopen(true) {
@@ -632,7 +645,7 @@ func historyCase(r *vrt.Run, idx, maxLayers int) {
 		ok := d.extend(n)
 		if ok && rng.Intn(3) == 0 {
 			if err := d.db.Commit(d.head().Root, false); err != nil {
-				d.viol("commit-failed", err.Error())
+				d.commitError(err)
 			}
 			d.logf("commit head")
 		}
